@@ -204,6 +204,28 @@ class GaussOffset(GaussU):
         return GaussU.true_log_evidence.fget(self) + self.offset
 
 
+class GaussHardCut(GaussU):
+    """Gaussian likelihood that is exactly zero (log L = -inf) over about 80 % of the prior volume (x0 < 0.5 or |x1| > 2): a legitimate input, nessai only warns."""
+
+    def _ll(self, x):
+        base = GaussU._ll(self, x)
+        cut = (x["x0"] < 0.5) | (np.abs(x["x1"]) > 2.0)
+        return np.where(cut, -np.inf, base)
+
+    @property
+    def true_log_evidence(self):
+        lo, hi = self.bounds["x0"]
+        return math.log((ndtr(hi) - ndtr(0.5)) * (ndtr(2.0) - ndtr(-2.0))) - self._logvol
+
+    def posterior_moments(self):
+        from scipy.stats import truncnorm
+
+        lo, hi = self.bounds["x0"]
+        m0, v0 = truncnorm.stats(0.5, hi, moments="mv")
+        m1, v1 = truncnorm.stats(-2.0, 2.0, moments="mv")
+        return {"x0": (float(m0), float(v0)), "x1": (float(m1), float(v1))}
+
+
 class GaussTN(ZooModel):
     """Product of truncated-normal priors (non-uniform) x Gaussian likelihood; analytic evidence.
 
@@ -510,6 +532,8 @@ def make(name, **kw):
         return GaussFlat(2, **kw)
     if name == "G2a":
         return GaussAsym(**kw)
+    if name == "G2h":
+        return GaussHardCut(2, **kw)
     if name == "G2o":
         return GaussOffset(-2000.0, **kw)
     if name == "G2p":
